@@ -16,7 +16,7 @@ ID = "C05"
 PROPS = ["props/C05.v"]
 EXTRACTS = ["Solver"]
 THEOREMS = ["C05_first_repository_that_answers_wins", "C05_later_repositories_not_consulted",
-            "C05_recorded_version_reproduced", "C05_recorded_version_falls_through"]
+            "C05_recorded_version_reproduced", "C05_recorded_version_falls_through", "C05_refuted_release_moves_unforced_pin"]
 RULE = ("chains: a generated universe is compiled by the real perform_compile, the result is written by the real "
         "write_requirements_file (multi-line or one-line) and loaded by the real SolutionRepository; the other repository "
         "gains newer versions; then (v1) the same inputs are compiled against [solution, index], (v2) a subset of the input "
@@ -33,7 +33,9 @@ LEVEL_TEXT = ("Theorems for all stacks, requests and budgets on the Gallina mode
               "one readable candidate of the requested project whose version satisfies the request reproduces it, otherwise the "
               "request falls through to the next repository. The whole-chain statement (same pins again, sub-closure, release "
               "changes only what it forces) is NOT proved: it is checked on generated chains by differential execution of the "
-              "second compile (real code vs model) and by an independent oracle on the real code.")
+              "second compile (real code vs model) and by an independent oracle on the real code; its last sentence is refuted by a "
+              "vm_compute witness (walk-back residue: a released project returns to its old version, a collateral pin stays moved), "
+              "replayed on /repo as known finding C05-release-residue.")
 LEVEL_NOTE = ("Trusted: Coq kernel, extraction, drivers, T1/T2 harness, the real writer and loader (C06), packaging semantics. "
               "Modelled, not verified: compile.py, dists.py, repos/multi.py get_dist order, repository.py do_get_candidate.")
 TECHNIQUE = "Rocq theorems on the repository-stack model + extraction-based differential correspondence of compile -> feed back -> compile chains"
@@ -124,24 +126,30 @@ def reach_from(obs: Dict[str, Any], root_keys: List[str]) -> set:
     return seen
 
 
-def newer_versions(rng, universe: Dict[str, Any]) -> Dict[str, Any]:
+def newer_versions(rng, universe: Dict[str, Any], pins: Optional[Dict[str, str]] = None) -> Dict[str, Any]:
+    """later history of the index: newer versions, some of which force other projects off their recorded pins"""
     out = {k: [list(c) for c in v] for k, v in universe.items()}
+    pins = pins or {}
     for k in list(out):
         for _ in range(rng.choice([0, 1, 1, 2])):
             ver = rng.choice(["4.0", "5.0", "4.1", "6.0a1", "3.5"])
             if any(c[1] == ver for c in out[k]):
                 continue
             reqs = []
-            if rng.random() < 0.4:
+            r = rng.random()
+            if r < 0.4:
                 other = rng.choice(list(out))
                 reqs.append(other + rng.choice(["", ">=1.0", "<9"]))
+            elif r < 0.75 and pins:
+                other = rng.choice(sorted(pins))
+                if other != k:
+                    reqs.append(other + rng.choice([">", "!=", ">=4.0,!="]) + pins[other])
             out[k].append([k, ver, reqs, True])
         rng.shuffle(out[k])
     return out
 
 
 def build_chain(ctx: Ctx, M, alphabet, tmp: str, idx: int) -> Optional[Dict[str, Any]]:
-    CP, C, D, E, R, U = M
     rng = ctx.rng
     case = solverlib.gen_case(rng, alphabet, rng.choice(MODES))
     case["constraints"] = None
@@ -150,32 +158,40 @@ def build_chain(ctx: Ctx, M, alphabet, tmp: str, idx: int) -> Optional[Dict[str,
     ctx.count("first:" + first["kind"])
     if first["kind"] != "OK" or not first.get("emitted"):
         return None
-    path = os.path.join(tmp, f"sol{idx}.txt")
     multiline = rng.random() < 0.6
-    try:
-        write_solution(M, first["_results"], first["_roots"], first["_repo"], path, multiline)
-    except Exception as ex:  # noqa: BLE001
-        ctx.count("writer-raised:" + type(ex).__name__)
-        return None
     variant = rng.choice(["v1-same-inputs", "v1-same-inputs", "v2-subset-solution-only", "v3-release-one"])
-    new_uni = newer_versions(rng, case["universe"])
+    new_uni = newer_versions(rng, case["universe"], pins_of(first))
     excluded: List[str] = []
     inputs = case["inputs"]
     if variant == "v2-subset-solution-only":
         inputs = [i for i in case["inputs"] if rng.random() < 0.6] or case["inputs"][:1]
     if variant == "v3-release-one":
         excluded = [rng.choice(sorted(first["emitted"]))]
+    ob = rng.choice([None, None, ":all:", rng.sample(sorted(first["emitted"]), 1)])
+    return exec_chain(M, tmp, idx, case, first, variant, new_uni, excluded, inputs, multiline, ob, ctx.count)
+
+
+def exec_chain(M, tmp: str, idx: int, case, first, variant: str, new_uni, excluded: List[str], inputs, multiline: bool, ob,
+               count=lambda *_a: None) -> Optional[Dict[str, Any]]:
+    """the deterministic part of a chain: write the first result, load it back, compile again (also used by replays)"""
+    CP, C, D, E, R, U = M
+    path = os.path.join(tmp, f"sol{idx}.txt")
+    try:
+        write_solution(M, first["_results"], first["_roots"], first["_repo"], path, multiline)
+    except Exception as ex:  # noqa: BLE001
+        count("writer-raised:" + type(ex).__name__)
+        return None
     import req_compile.repos.multi as MU
     import req_compile.repos.solution as SO
     try:
         sol = SO.SolutionRepository(path, excluded_packages=excluded or None)
     except Exception as ex:  # noqa: BLE001
-        ctx.count("loader-raised:" + type(ex).__name__)
+        count("loader-raised:" + type(ex).__name__)
         return {"variant": variant, "case": case, "first": first, "loader_error": type(ex).__name__, "multiline": multiline}
     su_loaded = sol_universe(sol)
     su = sol_universe_from_first(first)
     if su is None:
-        ctx.count("skipped:two-activating-extras")
+        count("skipped:two-activating-extras")
         return None
     loader_diff = canon_universe(su_loaded) != canon_universe(su)
     for k in excluded:
@@ -188,7 +204,6 @@ def build_chain(ctx: Ctx, M, alphabet, tmp: str, idx: int) -> Optional[Dict[str,
     else:
         repo2 = MU.MultiRepository(sol, mem2)
         stack = [{"universe": su, "allow_pre": True}, {"universe": new_uni, "allow_pre": case["allow_pre"]}]
-    ob = rng.choice([None, None, ":all:", rng.sample(sorted(first["emitted"]), 1)])
     second_case = {"mode": "chain", "universe": {}, "stack": stack, "inputs": inputs, "constraints": None,
                    "remove_constraints": False, "allow_pre": case["allow_pre"], "max_downgrade": case["max_downgrade"],
                    "only_binary": ob}
@@ -197,6 +212,20 @@ def build_chain(ctx: Ctx, M, alphabet, tmp: str, idx: int) -> Optional[Dict[str,
     return {"variant": variant, "case": case, "first": first, "second_case": second_case, "second": second,
             "excluded": excluded, "multiline": multiline, "loader_diff": loader_diff,
             "loaded": canon_universe(su_loaded) if loader_diff else None, "new_universe": new_uni}
+
+
+def rerun_chain(ctx: Ctx, d: Dict[str, Any]) -> Optional[Dict[str, Any]]:
+    """re-execute a recorded chain ({case, variant, new_universe, excluded, second_inputs, multiline, only_binary}) on the real code"""
+    M = solverlib.mods()
+    tmp = str(ctx.tmpdir())
+
+    def work():
+        first = solverlib.run_impl(d["case"], M, keep=True)
+        if first["kind"] != "OK":
+            return None
+        return exec_chain(M, tmp, 999, d["case"], first, d["variant"], d["new_universe"], d["excluded"], d["second_inputs"],
+                          d["multiline"], d.get("only_binary"))
+    return solverlib.in_big_thread(work)
 
 
 def run_second(case: Dict[str, Any], repo, M) -> Dict[str, Any]:
@@ -228,6 +257,13 @@ def run_second(case: Dict[str, Any], repo, M) -> Dict[str, Any]:
             cls.append(enc440.canon_clause(t) if t else ("?", "?", str(sp)))
         out = {"kind": "NOCAND", "name": ex.req.project_name, "spec": sorted(set(cls)),
                "graph": graphenc.obs_graph(ex.results, with_bc=False) if ex.results is not None else None}
+        try:
+            import req_compile.cmdline as CL
+            out["chains"] = sorted([n.key for n in p] for p in CL._find_paths_to_root(ex.results[ex.req.name]))
+        except KeyError:
+            out["chains"] = None
+        except Exception as ex2:  # noqa: BLE001
+            out["chains"] = ["ERR", graphenc.exc_class(ex2)]
     except RecursionError:
         out = {"kind": "DIVERGED"}
     except BaseException as ex:  # noqa: BLE001
@@ -239,12 +275,13 @@ def run_second(case: Dict[str, Any], repo, M) -> Dict[str, Any]:
 
 def chain_violation(ch: Dict[str, Any]) -> Optional[str]:
     """the property statement on the real code's observations only"""
+    import solver_oracles as SO
+    first = ch["first"]
+    if SO.c02(ch["case"], first) or SO.c01(ch["case"], first) or SO.c08(ch["case"], first):
+        return None     # the first output is itself not a closed, consistent, honestly annotated solution (C01/C02/C08, listed there)
     if "loader_error" in ch:
         return f"the tool's own output cannot be loaded back as a solution ({ch['loader_error']})"
-    first, second, variant = ch["first"], ch["second"], ch["variant"]
-    import solver_oracles as SO
-    if SO.c02(ch["case"], first) or SO.c01(ch["case"], first):
-        return None     # the first output is itself not a closed, consistent solution (properties C01/C02, listed there)
+    second, variant = ch["second"], ch["variant"]
     p1 = pins_of(first)
     if variant == "v1-same-inputs":
         if second["kind"] != "OK":
@@ -263,6 +300,13 @@ def chain_violation(ch: Dict[str, Any]) -> Optional[str]:
         if pins_of(second) != want:
             return f"sub-closure differs: expected {want}, got {pins_of(second)}"
     elif variant == "v3-release-one":
+        if second["kind"] == "NOCAND":
+            # honest only if no repository of the stack offers the failing project in a version the failing request accepts
+            w = SO.c09({"universe": ch["new_universe"], "only_binary": ch["second_case"].get("only_binary")},
+                       {"kind": "NOCAND", "name": second["name"], "spec": second["spec"]})
+            if w:
+                return (f"releasing {sorted(graphenc_key(x) for x in ch['excluded'])} makes the compile fail: {w} "
+                        "(a repository behind the solution offers it; the solution's own pin must not shadow it)")
         if second["kind"] != "OK":
             return None     # the released project may legitimately have no acceptable newer version
         p2 = pins_of(second)
@@ -350,10 +394,16 @@ def correspondence(ctx: Ctx) -> None:
             ctx.mismatch("second-compile", {"chain": _brief_chain(ch)}, solverlib._brief(i), solverlib._brief(m))
         if chain_violation(ch):
             viol += 1
+            ctx.extra.setdefault("statement_violations_examples", []).append({"why": chain_violation(ch), "new": bool(new_violation(ch)), "chain": _brief_chain(ch)})
     for ch in chains:
         if "loader_error" in ch:
             ctx.case(key=json.dumps([ch["case"]["universe"], ch["case"]["inputs"], "loader"], sort_keys=True), nontrivial=True)
-            viol += 1
+            if chain_violation(ch):
+                viol += 1
+                ctx.mismatch("solution-load-raises", {"case": solver_case(ch["case"]), "multiline": ch["multiline"]}, ch["loader_error"], "loads")
+                ctx.extra.setdefault("statement_violations_examples", []).append({"why": chain_violation(ch), "new": True, "chain": {"case": solver_case(ch["case"])}})
+            else:
+                ctx.count("loader-raised-on-unsound-first-output(C02/C08 family)")
     ctx.extra["statement_violations_on_impl_outcomes"] = viol
     ctx._chains = chains  # type: ignore[attr-defined]
 
@@ -392,8 +442,17 @@ def search(ctx: Ctx) -> Optional[Dict[str, Any]]:
 
 
 def replay(ctx: Ctx, payload: Dict[str, Any]) -> bool:
-    return False
+    fi = payload.get("failing_input")
+    if not fi or "second_inputs" not in fi.get("input", {}):
+        return False
+    ch = rerun_chain(ctx, fi["input"])
+    return bool(ch and chain_violation(ch))
 
 
 def replay_known(ctx: Ctx, entry: Dict[str, Any]) -> Optional[bool]:
-    return None
+    d = json.loads((common.VERIF / entry["replay"]).read_text())
+    ch = rerun_chain(ctx, d)
+    if ch is None:
+        return False
+    w = chain_violation(ch)
+    return bool(w) and (entry.get("expect_in_why", "") in w)
